@@ -18,7 +18,7 @@ def count_ops(body, name):
 
 def r1_refcount(chk):
     r = chk.rule("R1", "subscription reference count shape", "T9 constants + T3",
-                 "subscribe adds exactly 1 at the terminal node; unsubscribe subtracts 1 and restores it iff the previous value was 0; a missing path returns without touching counts")
+                 "subscribe adds exactly 1 at the terminal node; unsubscribe is one checked fetch_update(|c| c.checked_sub(1)) after the whole path exists (no unchecked fetch_sub + repair: matches() reads the count concurrently) and returns true iff it took the count from 1 to 0")
     for cfg, prog in chk.configs():
         sub = prog.body(TRIE + "::subscribe")
         uns = prog.body(TRIE + "::unsubscribe")
@@ -31,27 +31,41 @@ def r1_refcount(chk):
             r.ok(cfg, key, where(sub, adds[0].blk))
         else:
             r.bad(cfg, key, where(sub, adds[0].blk if adds else 0), "subscribe must increment the terminal node's count by exactly 1, once (found %d fetch_add)" % len(adds))
-        subs = count_ops(uns, "fetch_sub")
-        rest = count_ops(uns, "fetch_add")
-        key = "unsubscribe|-1 once, after the whole path exists"
-        if len(subs) == 1 and uns.const_int(subs[0].args[1]) == 1 and not uns.loops_containing(subs[0].blk):
-            r.ok(cfg, key, where(uns, subs[0].blk))
+        # unsubscribe: one checked, self-validating decrement (the count is read concurrently by matches() under read locks,
+        # so it must never leave its valid range, not even between two atomic operations)
+        upd = count_ops(uns, "fetch_update")
+        plain = count_ops(uns, "fetch_sub") + count_ops(uns, "fetch_add") + count_ops(uns, "store")
+        key = "unsubscribe|one checked decrement, after the whole path exists"
+        clo_ok = False
+        if len(upd) == 1 and len(upd[0].args) >= 4:
+            org = uns.value_origin(upd[0].args[3])
+            cb = prog.bodies.get(org[1]["r"].get("def")) if org[0] == "agg" and org[1]["r"].get("ak") == "closure" else None
+            if cb is not None:
+                cs = [c for c in cb.calls if not c.exp]
+                clo_ok = len(cs) == 1 and cs[0].name == "checked_sub" and cb.const_int(cs[0].args[1]) == 1 and cb.value_origin({"c": "copy", "p": {"l": 0, "pr": [], "s": "", "ty": ""}})[0] == "call"
+        if len(upd) == 1 and clo_ok and not plain and not uns.loops_containing(upd[0].blk):
+            r.ok(cfg, key, where(uns, upd[0].blk), "count.fetch_update(|c| c.checked_sub(1))")
         else:
-            r.bad(cfg, key, where(uns, subs[0].blk if subs else 0), "unsubscribe must decrement exactly one count by 1 after walking the whole topic")
-        key = "unsubscribe|restore iff previous == 0"
-        if len(rest) == 1 and subs:
-            ok = False
-            for g in uns.guards(rest[0].blk, select_aware=False):
-                nc = norm_cmp(uns, g)
-                if nc and isinstance(nc[2], int) and uns.value_origin(g.atom[2])[0] == "call" and uns.value_origin(g.atom[2])[1].blk == subs[0].blk:
-                    if interval(nc[1], nc[2]) == (0, 0):
-                        ok = True
-            if ok and uns.const_int(rest[0].args[1]) == 1:
-                r.ok(cfg, key, where(uns, rest[0].blk))
-            else:
-                r.bad(cfg, key, where(uns, rest[0].blk), "the underflow restore is not guarded by `previous count == 0`: unsubscribing something never subscribed changes the count")
+            why = []
+            if plain:
+                why.append("%d unchecked fetch_sub/fetch_add/store on the count (a decrement repaired afterwards exposes a wrapped count to concurrent matches(): a never-subscribed topic matches, and racing unsubscribes leave it wrapped)" % len(plain))
+            if len(upd) != 1:
+                why.append("%d fetch_update calls" % len(upd))
+            elif not clo_ok:
+                why.append("the update closure is not `c.checked_sub(1)`")
+            r.bad(cfg, key, where(uns, (plain or upd or [None])[0].blk if (plain or upd) else 0), "; ".join(why))
+        key = "unsubscribe|true iff the count went from 1 to 0"
+        rets = uns.whole_defs(0)
+        eqs = [d for d in rets if d[0] == "assign" and d[3]["r"]["k"] == "binop" and d[3]["r"]["op"] == "Eq"]
+        falses = [d for d in rets if d[0] == "assign" and d[3]["r"]["k"] == "use" and d[3]["r"]["o"].get("int") == 0]
+        good = len(eqs) == 1 and len(eqs) + len(falses) == len(rets) and uns.const_int(eqs[0][3]["r"]["b"]) == 1
+        if good and upd:
+            pv = uns.provenance(eqs[0][3]["r"]["a"])
+            good = "fetch_update" in pv and "@Ok" in pv
+        if good:
+            r.ok(cfg, key, where(uns, eqs[0][1]), "returns old == 1 on Ok(old), false otherwise")
         else:
-            r.bad(cfg, key, where(uns, 0), "no single restoring fetch_add found")
+            r.bad(cfg, key, where(uns, 0), "unsubscribe must report `true` exactly when its own decrement took the count from 1 to 0 (found %d returns, %d of the form x == 1)" % (len(rets), len(eqs)))
         r.require(cfg, 3, "refcount obligations")
 
 
